@@ -34,9 +34,15 @@ theories/DP.vos theories/DP.vok theories/DP.required_vos: theories/DP.v theories
 theories/Mdd.vo theories/Mdd.glob theories/Mdd.v.beautified theories/Mdd.required_vo: theories/Mdd.v theories/Base.vo theories/Fringe.vo theories/DP.vo theories/Cache.vo theories/Dom.vo
 theories/Mdd.vio: theories/Mdd.v theories/Base.vio theories/Fringe.vio theories/DP.vio theories/Cache.vio theories/Dom.vio
 theories/Mdd.vos theories/Mdd.vok theories/Mdd.required_vos: theories/Mdd.v theories/Base.vos theories/Fringe.vos theories/DP.vos theories/Cache.vos theories/Dom.vos
+theories/MddExact.vo theories/MddExact.glob theories/MddExact.v.beautified theories/MddExact.required_vo: theories/MddExact.v theories/Base.vo theories/Fringe.vo theories/DP.vo theories/Cache.vo theories/Dom.vo theories/Mdd.vo
+theories/MddExact.vio: theories/MddExact.v theories/Base.vio theories/Fringe.vio theories/DP.vio theories/Cache.vio theories/Dom.vio theories/Mdd.vio
+theories/MddExact.vos theories/MddExact.vok theories/MddExact.required_vos: theories/MddExact.v theories/Base.vos theories/Fringe.vos theories/DP.vos theories/Cache.vos theories/Dom.vos theories/Mdd.vos
 theories/Viz.vo theories/Viz.glob theories/Viz.v.beautified theories/Viz.required_vo: theories/Viz.v theories/Base.vo theories/Fringe.vo theories/DP.vo theories/Cache.vo theories/Dom.vo theories/Mdd.vo
 theories/Viz.vio: theories/Viz.v theories/Base.vio theories/Fringe.vio theories/DP.vio theories/Cache.vio theories/Dom.vio theories/Mdd.vio
 theories/Viz.vos theories/Viz.vok theories/Viz.required_vos: theories/Viz.v theories/Base.vos theories/Fringe.vos theories/DP.vos theories/Cache.vos theories/Dom.vos theories/Mdd.vos
+theories/MddStruct.vo theories/MddStruct.glob theories/MddStruct.v.beautified theories/MddStruct.required_vo: theories/MddStruct.v theories/Base.vo theories/Fringe.vo theories/DP.vo theories/Cache.vo theories/Dom.vo theories/Mdd.vo theories/Viz.vo
+theories/MddStruct.vio: theories/MddStruct.v theories/Base.vio theories/Fringe.vio theories/DP.vio theories/Cache.vio theories/Dom.vio theories/Mdd.vio theories/Viz.vio
+theories/MddStruct.vos theories/MddStruct.vok theories/MddStruct.required_vos: theories/MddStruct.v theories/Base.vos theories/Fringe.vos theories/DP.vos theories/Cache.vos theories/Dom.vos theories/Mdd.vos theories/Viz.vos
 theories/Table.vo theories/Table.glob theories/Table.v.beautified theories/Table.required_vo: theories/Table.v theories/Base.vo theories/Fringe.vo theories/DP.vo theories/Cache.vo theories/Dom.vo theories/Mdd.vo theories/Viz.vo
 theories/Table.vio: theories/Table.v theories/Base.vio theories/Fringe.vio theories/DP.vio theories/Cache.vio theories/Dom.vio theories/Mdd.vio theories/Viz.vio
 theories/Table.vos theories/Table.vok theories/Table.required_vos: theories/Table.v theories/Base.vos theories/Fringe.vos theories/DP.vos theories/Cache.vos theories/Dom.vos theories/Mdd.vos theories/Viz.vos
@@ -70,9 +76,27 @@ theories/Props/C11.vos theories/Props/C11.vok theories/Props/C11.required_vos: t
 theories/Props/C01.vo theories/Props/C01.glob theories/Props/C01.v.beautified theories/Props/C01.required_vo: theories/Props/C01.v theories/Base.vo theories/Fringe.vo theories/DP.vo theories/Cache.vo theories/Dom.vo theories/Mdd.vo theories/Solver.vo theories/SolverProofs.vo
 theories/Props/C01.vio: theories/Props/C01.v theories/Base.vio theories/Fringe.vio theories/DP.vio theories/Cache.vio theories/Dom.vio theories/Mdd.vio theories/Solver.vio theories/SolverProofs.vio
 theories/Props/C01.vos theories/Props/C01.vok theories/Props/C01.required_vos: theories/Props/C01.v theories/Base.vos theories/Fringe.vos theories/DP.vos theories/Cache.vos theories/Dom.vos theories/Mdd.vos theories/Solver.vos theories/SolverProofs.vos
-theories/Props/C13.vo theories/Props/C13.glob theories/Props/C13.v.beautified theories/Props/C13.required_vo: theories/Props/C13.v theories/Base.vo theories/Width.vo
-theories/Props/C13.vio: theories/Props/C13.v theories/Base.vio theories/Width.vio
-theories/Props/C13.vos theories/Props/C13.vok theories/Props/C13.required_vos: theories/Props/C13.v theories/Base.vos theories/Width.vos
+theories/Props/C13.vo theories/Props/C13.glob theories/Props/C13.v.beautified theories/Props/C13.required_vo: theories/Props/C13.v theories/Base.vo theories/Fringe.vo theories/DP.vo theories/Cache.vo theories/Dom.vo theories/Mdd.vo theories/Viz.vo theories/MddStruct.vo theories/MddExact.vo theories/Width.vo
+theories/Props/C13.vio: theories/Props/C13.v theories/Base.vio theories/Fringe.vio theories/DP.vio theories/Cache.vio theories/Dom.vio theories/Mdd.vio theories/Viz.vio theories/MddStruct.vio theories/MddExact.vio theories/Width.vio
+theories/Props/C13.vos theories/Props/C13.vok theories/Props/C13.required_vos: theories/Props/C13.v theories/Base.vos theories/Fringe.vos theories/DP.vos theories/Cache.vos theories/Dom.vos theories/Mdd.vos theories/Viz.vos theories/MddStruct.vos theories/MddExact.vos theories/Width.vos
 theories/Props/C14.vo theories/Props/C14.glob theories/Props/C14.v.beautified theories/Props/C14.required_vo: theories/Props/C14.v theories/Base.vo theories/Fringe.vo theories/DP.vo theories/Cache.vo theories/Dom.vo theories/Mdd.vo theories/Solver.vo theories/SolverProofs.vo
 theories/Props/C14.vio: theories/Props/C14.v theories/Base.vio theories/Fringe.vio theories/DP.vio theories/Cache.vio theories/Dom.vio theories/Mdd.vio theories/Solver.vio theories/SolverProofs.vio
 theories/Props/C14.vos theories/Props/C14.vok theories/Props/C14.required_vos: theories/Props/C14.v theories/Base.vos theories/Fringe.vos theories/DP.vos theories/Cache.vos theories/Dom.vos theories/Mdd.vos theories/Solver.vos theories/SolverProofs.vos
+theories/Props/C07.vo theories/Props/C07.glob theories/Props/C07.v.beautified theories/Props/C07.required_vo: theories/Props/C07.v theories/Base.vo theories/Fringe.vo theories/DP.vo theories/Cache.vo theories/Dom.vo theories/Mdd.vo theories/Viz.vo theories/MddStruct.vo theories/MddExact.vo
+theories/Props/C07.vio: theories/Props/C07.v theories/Base.vio theories/Fringe.vio theories/DP.vio theories/Cache.vio theories/Dom.vio theories/Mdd.vio theories/Viz.vio theories/MddStruct.vio theories/MddExact.vio
+theories/Props/C07.vos theories/Props/C07.vok theories/Props/C07.required_vos: theories/Props/C07.v theories/Base.vos theories/Fringe.vos theories/DP.vos theories/Cache.vos theories/Dom.vos theories/Mdd.vos theories/Viz.vos theories/MddStruct.vos theories/MddExact.vos
+theories/Props/C08.vo theories/Props/C08.glob theories/Props/C08.v.beautified theories/Props/C08.required_vo: theories/Props/C08.v theories/Base.vo theories/Fringe.vo theories/DP.vo theories/Cache.vo theories/Dom.vo theories/Mdd.vo theories/Viz.vo theories/MddStruct.vo theories/MddExact.vo
+theories/Props/C08.vio: theories/Props/C08.v theories/Base.vio theories/Fringe.vio theories/DP.vio theories/Cache.vio theories/Dom.vio theories/Mdd.vio theories/Viz.vio theories/MddStruct.vio theories/MddExact.vio
+theories/Props/C08.vos theories/Props/C08.vok theories/Props/C08.required_vos: theories/Props/C08.v theories/Base.vos theories/Fringe.vos theories/DP.vos theories/Cache.vos theories/Dom.vos theories/Mdd.vos theories/Viz.vos theories/MddStruct.vos theories/MddExact.vos
+theories/Props/C06.vo theories/Props/C06.glob theories/Props/C06.v.beautified theories/Props/C06.required_vo: theories/Props/C06.v theories/Base.vo theories/Fringe.vo theories/DP.vo theories/Cache.vo theories/Dom.vo theories/Mdd.vo theories/Viz.vo theories/MddStruct.vo theories/MddExact.vo
+theories/Props/C06.vio: theories/Props/C06.v theories/Base.vio theories/Fringe.vio theories/DP.vio theories/Cache.vio theories/Dom.vio theories/Mdd.vio theories/Viz.vio theories/MddStruct.vio theories/MddExact.vio
+theories/Props/C06.vos theories/Props/C06.vok theories/Props/C06.required_vos: theories/Props/C06.v theories/Base.vos theories/Fringe.vos theories/DP.vos theories/Cache.vos theories/Dom.vos theories/Mdd.vos theories/Viz.vos theories/MddStruct.vos theories/MddExact.vos
+theories/Props/C02.vo theories/Props/C02.glob theories/Props/C02.v.beautified theories/Props/C02.required_vo: theories/Props/C02.v theories/Base.vo theories/Fringe.vo theories/DP.vo theories/Cache.vo theories/Dom.vo theories/Mdd.vo theories/Viz.vo theories/MddStruct.vo theories/MddExact.vo
+theories/Props/C02.vio: theories/Props/C02.v theories/Base.vio theories/Fringe.vio theories/DP.vio theories/Cache.vio theories/Dom.vio theories/Mdd.vio theories/Viz.vio theories/MddStruct.vio theories/MddExact.vio
+theories/Props/C02.vos theories/Props/C02.vok theories/Props/C02.required_vos: theories/Props/C02.v theories/Base.vos theories/Fringe.vos theories/DP.vos theories/Cache.vos theories/Dom.vos theories/Mdd.vos theories/Viz.vos theories/MddStruct.vos theories/MddExact.vos
+theories/Props/C12.vo theories/Props/C12.glob theories/Props/C12.v.beautified theories/Props/C12.required_vo: theories/Props/C12.v theories/Base.vo theories/Fringe.vo theories/DP.vo theories/Cache.vo theories/Dom.vo theories/Mdd.vo theories/Viz.vo theories/MddStruct.vo theories/MddExact.vo
+theories/Props/C12.vio: theories/Props/C12.v theories/Base.vio theories/Fringe.vio theories/DP.vio theories/Cache.vio theories/Dom.vio theories/Mdd.vio theories/Viz.vio theories/MddStruct.vio theories/MddExact.vio
+theories/Props/C12.vos theories/Props/C12.vok theories/Props/C12.required_vos: theories/Props/C12.v theories/Base.vos theories/Fringe.vos theories/DP.vos theories/Cache.vos theories/Dom.vos theories/Mdd.vos theories/Viz.vos theories/MddStruct.vos theories/MddExact.vos
+theories/Props/C20.vo theories/Props/C20.glob theories/Props/C20.v.beautified theories/Props/C20.required_vo: theories/Props/C20.v theories/Base.vo theories/Fringe.vo theories/DP.vo theories/Cache.vo theories/Dom.vo theories/Mdd.vo theories/Viz.vo theories/MddStruct.vo theories/MddExact.vo
+theories/Props/C20.vio: theories/Props/C20.v theories/Base.vio theories/Fringe.vio theories/DP.vio theories/Cache.vio theories/Dom.vio theories/Mdd.vio theories/Viz.vio theories/MddStruct.vio theories/MddExact.vio
+theories/Props/C20.vos theories/Props/C20.vok theories/Props/C20.required_vos: theories/Props/C20.v theories/Base.vos theories/Fringe.vos theories/DP.vos theories/Cache.vos theories/Dom.vos theories/Mdd.vos theories/Viz.vos theories/MddStruct.vos theories/MddExact.vos
